@@ -209,6 +209,56 @@ func extractC08() *lean {
 				return true
 			})
 		}
+		// the rollback handlers of Add in registration order (go-stoabs calls them in this order), and where addMutex is
+		// taken: at the top level of Add (not inside a closure), before the call of s.db.Write
+		var handlers, shape []string
+		if addFn != nil {
+			var writePos token.Pos
+			ast.Inspect(addFn, func(n ast.Node) bool {
+				if c, ok := n.(*ast.CallExpr); ok {
+					switch exprString(c.Fun) {
+					case "s.db.Write":
+						if writePos == 0 && len(c.Args) >= 2 {
+							if _, isLit := c.Args[1].(*ast.FuncLit); isLit && len(c.Args) > 2 {
+								writePos = c.Pos()
+							}
+						}
+					case "stoabs.OnRollback":
+						if len(c.Args) == 1 {
+							if id, ok := c.Args[0].(*ast.Ident); ok {
+								handlers = append(handlers, id.Name)
+							} else {
+								var calls []string
+								ast.Inspect(c.Args[0], func(m ast.Node) bool {
+									if c2, ok := m.(*ast.CallExpr); ok && strings.HasPrefix(exprString(c2.Fun), "s.") {
+										calls = append(calls, exprString(c2.Fun))
+									}
+									return true
+								})
+								handlers = append(handlers, "func:"+strings.Join(calls, ","))
+							}
+						}
+					}
+				}
+				return true
+			})
+			for _, st := range addFn.Body.List { // top-level statements only
+				switch x := st.(type) {
+				case *ast.ExprStmt:
+					if c, ok := x.X.(*ast.CallExpr); ok && exprString(c.Fun) == "s.addMutex.Lock" {
+						if writePos != 0 && c.Pos() < writePos {
+							shape = append(shape, "Lock:top-level:before-db.Write")
+						} else {
+							shape = append(shape, "Lock:top-level:NOT-before-db.Write")
+						}
+					}
+				case *ast.DeferStmt:
+					shape = append(shape, "defer:top-level:"+c08Src(stFset, x.Call))
+				}
+			}
+		}
+		l.def("addRollbackHandlers", "List String", leanStrList(handlers), handlers)
+		l.def("addMutexShape", "List String", leanStrList(shape), shape)
 		l.def("addFirstAfterCommit", "List String", leanStrList(firstAfter), firstAfter)
 		l.def("addDefers", "List String", leanStrList(defers), defers)
 	}
